@@ -21,6 +21,9 @@ def make_plan(seed: int, tier: str, opts: dict) -> dict:
     n_eps = r.choice([1, 2, 2, 3])
     eps = [driver.gen_episode(r, j, open_loop=spec["open_loop"], nsteps=r.randint(2, opts.get("max_steps", 8)), endings=("stop", "stop2", "none"), override_p=0.4) for j in range(n_eps)]
     eps[-1]["ending"] = "stop"
+    for j in range(1, len(eps)):
+        if r.random() < 0.4 and eps[j - 1]["nsteps"] > 0:
+            eps[j]["carry"] = True  # episode started from the graph state the previous one ended with (seq != 0)
     for j in range(len(eps) - 1):
         if eps[j]["ending"] == "none" and eps[j + 1]["api"] != "gym":
             eps[j]["ending"] = "stop"
@@ -52,7 +55,9 @@ def run_plan(plan: dict, replay=None) -> dict:
     # ---- threaded half
     for eo in ro.episodes:
         cnt = Counter((names[ev["node"]], ev["seq"]) for ev in eo.trace if ev["eps"] == eo.plan["eps_id"])
-        foreign = [ev for ev in eo.trace if ev["eps"] != eo.plan["eps_id"]]
+        j_ = ro.episodes.index(eo)
+        prev_running = j_ > 0 and ro.episodes[j_ - 1].plan.get("ending") == "none"  # its nodes keep stepping until this episode's reset() stops them
+        foreign = [ev for ev in eo.trace if ev["eps"] != eo.plan["eps_id"] and not (prev_running and ev["eps"] == ro.episodes[j_ - 1].plan["eps_id"])]
         if foreign:
             viol.append(dict(clause="c06-step-executed-for-another-episode", signature="c06-foreign", episode=eo.plan["eps_id"], n=len(foreign)))
         for key, c in cnt.items():
